@@ -1,5 +1,7 @@
 import EtVerif.Props.C05b
 import EtVerif.Props.C05
+import EtVerif.Props.TrC05
+import EtVerif.Props.TrC01
 #print axioms EtVerif.C05.loop_returns_iterate
 #print axioms EtVerif.C05.loop_returns_iterate_init
 #print axioms EtVerif.C05.stopIter_spec
@@ -32,3 +34,19 @@ import EtVerif.Props.C05
 #print axioms EtVerif.C05b.compute_terminates_alpha_one
 #print axioms EtVerif.C05b.compute_terminates_with_t0
 #print axioms EtVerif.C05b.compute_terminates_first
+-- refinement of the translated Go code (Gen/Translated.lean, regenerated from /repo) to the model
+#print axioms EtVerif.TrC05.withInitialTrust
+#print axioms EtVerif.TrC05.withResultIn
+#print axioms EtVerif.TrC05.withFlatTail
+#print axioms EtVerif.TrC05.withFlatTailNumLeaders
+#print axioms EtVerif.TrC05.withFlatTailStats
+#print axioms EtVerif.TrC05.withMaxIterations
+#print axioms EtVerif.TrC05.withMinIterations
+#print axioms EtVerif.TrC05.withIterations
+#print axioms EtVerif.TrC05.withCheckFreq
+-- refinement of the translated basic.Compute (Gen/Translated.lean, regenerated from /repo) to the model
+#print axioms EtVerif.TrC01.compute_refines_ok_partial
+#print axioms EtVerif.TrC01.compute_refines_err_partial
+#print axioms EtVerif.TrC01.compute_refuses_validation
+#print axioms EtVerif.TrC01.compute_schedule
+#print axioms EtVerif.TrC01.compute_default_schedule
